@@ -8,7 +8,7 @@ P = {
  "C02": ("HIST: stateright BFS over all call histories {step(b), frames query, finish} up to the depth bound on real generators; invariant vs the one-shot waveform in every state",
          "explicit-state model checking (stateright) of operation histories on the real SpeechGenerator", "4 C02", "buffers <= 3 x fperiod, generators of 0..5 frames exhaustively plus V0 chunk families"),
  "C03": ("HIST (all call histories on one engine, baselines from fresh child processes) + SCHED (all interleavings of 2-3 concurrent calls with <= B preemptions at hook sites under a controlled scheduler) + compile-time Send/Sync assertion",
-         "stateless preemption-bounded schedule exploration of the real code + explicit-state history search", "4 C03", "preemptions only at verif-hooks sites; B <= 2; <= 3 controlled threads; histories to depth 4/5"),
+         "stateless preemption-bounded schedule exploration of the real code + explicit-state history search", "4 C03", "preemptions only at verif-hooks sites; B <= 2; <= 3 controlled threads; histories to depth 4/5; races whose window contains no hook site are only reached by the supplementary free-running rounds (8 real threads, mixed utterances/settings, setter bursts), which are sampling and labelled so in the evidence"),
  "C04": ("SCOPE: every model x tree x label of the enumerated spaces compared bit-exactly with an independent reader + glob matcher; generated files over all tree shapes <= 3 internal nodes",
          "bounded exhaustive input enumeration against an independent reference reader", "4 C04", "labels from corpus + RECOMB1 + path-constructed labels; generated trees <= 3 internal nodes"),
  "C05": ("SCOPE: full product of per-state (mean, variance, duration, voicing) alphabets x window sets x vector lengths on the real MlpgAdjust vs dense Gaussian elimination",
@@ -60,7 +60,7 @@ for pid in sorted(have):
         "replay_cmd_template": "./run replay {path}",
         "engine": "jbv",
         "level_claimed": {"category": "fault_enumeration" if pid in FAULT else "model_checking", "text": text, "design_ref": "DESIGN.md §" + ref},
-        "level_note": note + "; trusted base: the harness oracles (validated against the unchanged tree and by seeded changes), rustc, stateright",
+        "level_note": note + "; besides the bounded exhaustive part each check runs single large instances beyond its scope (listed in the evidence rule; probes, not enumerations); the quick tier checks one build (stable, default features + hooks, debug assertions and overflow checks on), the thorough tier repeats the quick enumeration under three more builds (plain, native, simd); trusted base: the harness oracles (validated against the unchanged tree and by 235 seeded changes), rustc, stateright",
         "technique": tech,
     })
 hooks = subprocess.run(["git","-C","/repo","log","--format=%H %s"],capture_output=True,text=True).stdout.splitlines()
